@@ -20,4 +20,11 @@ PROPS = {
         "text": "The MIR of Decimal::{floor, ceil, trunc, round, neg, abs, add, sub, mul, div (by value, by reference and the *Assign forms), partial_cmp, eq} and of scale/div/div_qr is regenerated from /repo and executed symbolically with the raw data as unbounded integers: floor/ceil/trunc/round return the multiple of 10^p their name prescribes (round within one half), add/sub/neg/abs are exact, mul is the floor of the exact product and div the truncation of the exact quotient at 34 digits, comparisons agree with the integers; for every value, at precisions p in {0,1,2,34} (thorough adds 3, 9, 18).",
         "note": "Unbounded in the values, bounded in the precision. Trusted: the IBig operator table (truncating division, sign(0)=Positive, exact product kept as one opaque term), validated natively against dashu at setup; the Decimal invariant multiplier = 10^precision on inputs. Outside: Display/from_str (printing), exp/ln/pow, mul/div at precisions other than 34.",
     },
+    "C27": {
+        "m": ["c27"],
+        "level": "model_checking",
+        "technique": "symbolic execution of the rustc MIR of PromotionBehavior's transition functions into SMT with HashSet<PeerId> mapped to bit-masks over a small peer universe; one inductive step from an arbitrary invariant-satisfying state, decided by z3 and cross-checked by cvc5",
+        "text": "Set-consistency half of the property as one inductive step: from an arbitrary state of the four peer sets satisfying the invariant (pairwise disjoint, sizes within arbitrary configured limits) over a universe of 3 peers (thorough 4), one call of on_peer_discovered, categorize_peer (housekeeping / inbound-message visitor), ban_peer or demote_peer with an arbitrary peer and an arbitrary InitiatorState re-establishes the invariant, keeps banned peers banned and out of cold/warm/hot, and never underflows a `max - len` subtraction. Because the pre-state is arbitrary, this covers event histories of any length over that universe.",
+        "note": "Not decided: the `never again asks to connect to a banned peer` half (Connect emission lives in InitiatorBehavior: HashMap + FuturesUnordered, not encodable). Trusted: HashSet as a mathematical set (bit-mask plug-in); tracing/metrics calls are uninterpreted (no mutable access to the sets). Assumed: demote_peer is applied to a tracked peer (the initiator never calls it; on an untracked peer it would add a cold peer beyond max_peers).",
+    },
 }
